@@ -8,7 +8,10 @@ PASS = [
     (('Option::<T>::ok_or_else', 'Option::<T>::ok_or', 'Option::<T>::expect', 'Option::<T>::unwrap',
       'Result::<T, E>::unwrap', 'Result::<T, E>::expect', 'Result::<T, E>::map_err', 'Result::<T, E>::ok',
       # anyhow::Context only decorates the error
-      'Context<T, E>>::with_context', 'Context<T, E>>::context', 'anyhow::Context::with_context', 'anyhow::Context::context'), 0),
+      'Context<T, E>>::with_context', 'Context<T, E>>::context', 'anyhow::Context::with_context', 'anyhow::Context::context',
+      # ... and on an Option it is ok_or_else(|| anyhow!(context))
+      'for std::option::Option<T>>::context', 'for std::option::Option<T>>::with_context',
+      'for std::result::Result<T, E>>::context', 'for std::result::Result<T, E>>::with_context'), 0),
     (('Deref>::deref', 'DerefMut>::deref_mut', 'Deref::deref', 'DerefMut::deref_mut', 'AsRef>::as_ref',
       'AsRef::as_ref', 'Borrow>::borrow', 'Borrow::borrow', 'BorrowMut>::borrow_mut'), 0),
     (('From>::from', 'Into>::into', 'From::from', 'Into::into', 'IntoIterator>::into_iter',
